@@ -367,6 +367,102 @@ fn main() {
         );
     }
 
+
+    // ---------------------------------------------------------------- range requests through the message validator
+    let mut wb = CaseWriter::new(&args.out, "breq");
+    {
+        use tensor_chain::{CompositeValidator, MessageValidationConfig, MessageValidator};
+        let nb = args.budget(300, 10000);
+        let corpus: Vec<(u64, u64, u64)> = vec![
+            (1000, 0, u64::MAX), (1000, u64::MAX, u64::MAX), (1000, 0, 999), (1000, 0, 1000), (1000, 5, 4),
+            (1000, u64::MAX - 999, u64::MAX), (1000, u64::MAX - 1000, u64::MAX), (1, 7, 7), (0, 7, 7), (u64::MAX - 2, 0, u64::MAX - 3),
+        ];
+        for i in 0..nb + corpus.len() {
+            let (maxb, from, to) = if i < corpus.len() { corpus[i] } else {
+                let maxb = *rng.pick(&[0u64, 1, 10, 1000, 1 << 32, u64::MAX - 2]);
+                let from = match rng.below(4) { 0 => 0, 1 => u64::MAX - rng.below(1100), 2 => rng.below(2000), _ => gen_u64(&mut rng) };
+                let to = match rng.below(5) {
+                    0 => u64::MAX,
+                    1 => from.saturating_add(maxb.min(2000)).saturating_sub(rng.below(3)),
+                    2 => from.saturating_add(rng.below(3)),
+                    3 => from.saturating_sub(rng.below(3)),
+                    _ => gen_u64(&mut rng),
+                };
+                (maxb, from, to)
+            };
+            let mut cfg = MessageValidationConfig::default();
+            cfg.max_blocks_per_request = maxb;
+            let v = CompositeValidator::new(cfg);
+            let msg = Message::BlockRequest(tensor_chain::network::BlockRequest { from_height: from, to_height: to, requester_id: "n1".to_string() });
+            let r = guarded(move || v.validate(&msg, &"n2".to_string()).is_ok());
+            let (acc, pan) = match r { Ok(a) => (a, false), Err(_) => (false, true) };
+            dist.hit(if pan { "breq.panicked" } else if acc { "breq.accepted" } else { "breq.rejected" });
+            wb.push(&format!("({maxb}, {from}, {to}, {}, {})", b(acc), b(pan)), &format!("BlockRequest from={from} to={to} max_blocks_per_request={maxb}"), true);
+        }
+        // every other validator with extreme numeric fields: must answer, not panic (implementation only)
+        let v = CompositeValidator::new(MessageValidationConfig::default());
+        for _ in 0..args.budget(300, 5000) {
+            let mut msg = gen_message(&mut rng, &mut Dist::default());
+            let x = *rng.pick(&[0u64, 1, u64::MAX, u64::MAX - 1, 1 << 63, 1 << 32]);
+            match &mut msg {
+                Message::RequestVote(m) => { m.term = x; m.last_log_index = x; m.last_log_term = x; }
+                Message::AppendEntries(m) => { m.term = x; m.prev_log_index = x; m.leader_commit = x; }
+                Message::AppendEntriesResponse(m) => { m.term = x; m.match_index = x; }
+                Message::SnapshotRequest(m) => { m.offset = x; m.chunk_size = x; }
+                Message::BlockRequest(m) => { m.from_height = x; m.to_height = u64::MAX; }
+                _ => {}
+            }
+            let d = format!("{msg:?}").chars().take(160).collect::<String>();
+            let v2 = &v;
+            if let Err(p) = guarded(std::panic::AssertUnwindSafe(move || { let _ = v2.validate(&msg, &"n2".to_string()); })) {
+                hits.push("", &format!("message validator panicked on {d}: {p}"), json!({"msg": d}));
+            }
+            dist.hit("validators.extreme_fields");
+        }
+    }
+
+
+    // ---------------------------------------------------------------- tensor_compress::format sparse snapshot encoding
+    let mut wfs = CaseWriter::new(&args.out, "fsparse");
+    {
+        use std::collections::BTreeMap;
+        use tensor_compress::format::{compress_dense_as_sparse, decompress_vector, CompressedEntry, CompressedSnapshot, Header};
+        let tiny: [u32; 8] = [0x0000_0001, 0x007f_ffff, 0x0080_0000, 0x3586_37bd /* 1e-6 */, 0x3506_37bd /* 5e-7 */, 0xb486_37bd, 0x7fc0_0000, 0x8000_0000];
+        let nfs = args.budget(300, 10000);
+        for i in 0..nfs {
+            let len = if i == 0 { 64 } else { rng.range(1, 40) as usize };
+            let d: Vec<u32> = (0..len).map(|j| {
+                if i == 0 { match j { 3 => 0x3f80_0000, 10 => 0x3506_37bd, 20 => 0xb486_37bd, 30 => 0x0080_0000, 40 => 0x0000_0040, 50 => 0x3586_37bd, 63 => 0xc040_0000, _ => 0 } }
+                else if rng.chance(7, 10) { if rng.chance(1, 8) { 0x8000_0000 } else { 0 } }
+                else if rng.chance(1, 2) { *rng.pick(&tiny) } else { f32_bits(&mut rng) }
+            }).collect();
+            let dense: Vec<f32> = d.iter().map(|b| f32::from_bits(*b)).collect();
+            let r = guarded(move || {
+                match compress_dense_as_sparse(&dense) {
+                    None => (false, vec![], true),
+                    Some(cv) => {
+                        let snap = CompressedSnapshot {
+                            header: Header::new(tensor_compress::CompressionConfig::default(), 1),
+                            entries: vec![CompressedEntry { key: "emb:x".to_string(), fields: BTreeMap::from([("v".to_string(), cv)]) }],
+                        };
+                        let back = snap.serialize().ok().and_then(|b| CompressedSnapshot::deserialize(&b).ok())
+                            .and_then(|mut s2| s2.entries.pop()).and_then(|mut e| e.fields.remove("v"))
+                            .and_then(|v| decompress_vector(&v).ok());
+                        match back { Some(v) => (true, v.iter().map(|f| f.to_bits() as u64).collect(), true), None => (true, vec![], false) }
+                    }
+                }
+            });
+            let dn: Vec<u64> = d.iter().map(|b| *b as u64).collect();
+            match r {
+                Ok((chosen, back, ok)) => {
+                    dist.hit(if chosen { "fsparse.sparse_form" } else { "fsparse.dense_kept" });
+                    wfs.push(&format!("({}, {}, {}, {})", nl(&dn), b(chosen), nl(&back), b(ok)), &format!("format sparse bits={:x?}", d), chosen);
+                }
+                Err(p) => hits.push("", &format!("tensor_compress::format panicked on bits {:x?}: {p}", d), json!({"bits": dn})),
+            }
+        }
+    }
+
     // ---------------------------------------------------------------- frames
     let mut wf = CaseWriter::new(&args.out, "frame");
     let nf = args.budget(400, 10000);
@@ -505,7 +601,7 @@ fn main() {
         &args.out,
         json!({
             "property": "C20", "seed": args.seed, "tier": args.tier,
-            "kinds": [w.summary(), wd.summary(), wl.summary(), wr.summary(), ws.summary(), wf.summary(), wp.summary(), wv.summary(), fz.summary()],
+            "kinds": [w.summary(), wd.summary(), wl.summary(), wr.summary(), ws.summary(), wf.summary(), wp.summary(), wv.summary(), wb.summary(), wfs.summary(), fz.summary()],
             "distribution": dist.json(),
             "hits": hits.0,
             "nontrivial_rule": "varint/delta/rle/sparse: non-empty (delta, rle: >= 2 elements) and distinct; frame: every case (a real Message through both protocol versions under a limit chosen around its serialized/compressed size); split: at least a full length prefix; fuzz_impl_only cases are not counted as non-trivial",
